@@ -516,6 +516,7 @@ class SurfaceContainer(AbstractContainer):
         super(SurfaceContainer, self).init_cache()
         self._cache['vertices'] = []
         self._cache['faces'] = []
+        self._cache['tsl_sources'] = []
 
     @property
     def delta_u(self):
@@ -664,7 +665,18 @@ class SurfaceContainer(AbstractContainer):
         """
         if not all((self._cache['vertices'], self._cache['faces'])):
             return False
-        return all(elem.tessellator is None or elem.tessellator.is_tessellated() for elem in self._elements)
+        # An element that has been edited and tessellated on its own in the meantime holds new vertex and face lists
+        sources = self._cache['tsl_sources']
+        if len(sources) != len(self._elements):
+            return False
+        for elem, src in zip(self._elements, sources):
+            if elem.tessellator is None:
+                continue
+            if not elem.tessellator.is_tessellated():
+                return False
+            if elem.tessellator.vertices is not src[0] or elem.tessellator.faces is not src[1]:
+                return False
+        return True
 
     def tessellate(self, **kwargs):
         """ Tessellates the surfaces inside the container.
@@ -736,12 +748,16 @@ class SurfaceContainer(AbstractContainer):
             f_offset += len(f)
         self._cache['vertices'] = verts
         self._cache['faces'] = faces
+        # Remember which tessellations of the elements the caches were built from
+        self._cache['tsl_sources'] = [(elem.tessellator.vertices, elem.tessellator.faces)
+                                      if elem.tessellator is not None else (None, None) for elem in self._elements]
 
     def reset(self):
         """ Resets the cache. """
         super(SurfaceContainer, self).reset()
         self._cache['vertices'][:] = []
         self._cache['faces'][:] = []
+        self._cache['tsl_sources'] = []
 
     def render(self, **kwargs):
         """ Renders the surfaces.
